@@ -27,8 +27,37 @@ def stackish_base(b):
     return b[0] == "A" or b[1] == RSP
 
 
+# abstract values: ("S", base, k) exact | ("R", base, lo, hi, st) base + range | ("N", lo, hi, st) number | "T" | "ST"
+NUM_MAX = 1 << 31
+WIDEN_AFTER = 6
+
+
 def stackish(v):
-    return v == "ST" or (v != "T" and stackish_base(v[1]))
+    if v == "ST":
+        return True
+    if v == "T" or v[0] == "N":
+        return False
+    return stackish_base(v[1])
+
+
+def divides(st, x):
+    return x == 0 if st == 0 else x % st == 0
+
+
+def rng(v):
+    if v in ("T", "ST"):
+        return None
+    if v[0] == "S":
+        return (v[1], v[2], v[2], 0)
+    if v[0] == "R":
+        return (v[1], v[2], v[3], v[4])
+    return (None, v[1], v[2], v[3])
+
+
+def mk(ob, lo, hi, st):
+    if ob is not None:
+        return ("S", ob, lo) if lo == hi else ("R", ob, lo, hi, st)
+    return ("N", lo, hi, st) if 0 <= lo and hi < NUM_MAX else "T"
 
 
 def aval_leq(a, b):
@@ -36,13 +65,71 @@ def aval_leq(a, b):
         return True
     if b == "T":
         return not stackish(a)
-    return a == b
+    if b[0] == "S":
+        return a == b
+    ra, rb = rng(a), rng(b)
+    if ra is None:
+        return False
+    return (ra[0] == rb[0] and rb[1] <= ra[1] and ra[2] <= rb[2] and divides(rb[3], ra[1] - rb[1])
+            and divides(rb[3], ra[3]))
+
+
+def aval_ejoin(a, b):
+    if a == b:
+        return a
+    return "ST" if stackish(a) or stackish(b) else "T"
+
+
+def aval_wjoin(a, b):
+    return a if aval_leq(b, a) else aval_ejoin(a, b)
 
 
 def aval_join(a, b):
     if a == b:
         return a
-    return "ST" if stackish(a) or stackish(b) else "T"
+    ra, rb = rng(a), rng(b)
+    if ra is not None and rb is not None and ra[0] == rb[0]:
+        import math
+        return mk(ra[0], min(ra[1], rb[1]), max(ra[2], rb[2]), math.gcd(math.gcd(ra[3], rb[3]), abs(ra[1] - rb[1])))
+    return aval_ejoin(a, b)
+
+
+def ub_refine(v, bound):
+    if v not in ("T", "ST") and v[0] == "N":
+        lo, hi, st = v[1], v[2], v[3]
+        if 0 <= lo and hi < NUM_MAX and 0 < st:
+            h = min(hi, bound)
+            if h < lo:
+                return v
+            return ("N", lo, lo + st * ((h - lo) // st), st)
+    return v
+
+
+def edge_bound(t, e):
+    if t[0] != "TJcmp":
+        return None
+    rl, r, k = t[3], t[4], t[5]
+    if not (0 <= k < NUM_MAX):
+        return None
+    if rl == "RLt" and e:
+        return (r, k - 1)
+    if rl == "RLe" and e:
+        return (r, k)
+    if rl == "RGe" and not e:
+        return (r, k - 1)
+    if rl == "RGt" and not e:
+        return (r, k)
+    return None
+
+
+def g_refine(t, e, s):
+    eb = edge_bound(t, e)
+    if eb is None:
+        return s
+    s = s.copy()
+    if eb[0] < 16:
+        s.ar[eb[0]] = ub_refine(s.ar[eb[0]], eb[1])
+    return s
 
 
 class G:
@@ -109,7 +196,7 @@ def g_tf(i, s, claims):
     s = s.copy()
     if op in ("GPush", "GPushX"):
         v = s.ar[RSP]
-        if v in ("T", "ST") or not stackish_base(v[1]) or not below_frame(s, v[1], v[2] - 8, 8):
+        if v in ("T", "ST") or v[0] != "S" or not stackish_base(v[1]) or not below_frame(s, v[1], v[2] - 8, 8):
             return None
         val = s.ar[i[1]] if op == "GPush" else ("ST" if any_stackish(s, i[1]) else "T")
         s.sl = kill_overlap(s, v[1], v[2] - 8, 8)
@@ -118,7 +205,7 @@ def g_tf(i, s, claims):
         return s
     if op == "GPop":
         v = s.ar[RSP]
-        if v in ("T", "ST") or not stackish_base(v[1]):
+        if v in ("T", "ST") or v[0] != "S" or not stackish_base(v[1]):
             return None
         val = load_val(s, v[1], v[2])
         if i[1] == RSP:
@@ -132,14 +219,31 @@ def g_tf(i, s, claims):
         return s
     if op == "GLea":
         v = s.ar[i[2]]
-        s.ar[i[1]] = v if v in ("T", "ST") else ("S", v[1], v[2] + i[3])
+        if v in ("T", "ST"):
+            s.ar[i[1]] = v
+        elif v[0] == "S":
+            s.ar[i[1]] = ("S", v[1], v[2] + i[3])
+        elif v[0] == "R":
+            s.ar[i[1]] = ("R", v[1], v[2] + i[3], v[3] + i[3], v[4])
+        else:
+            s.ar[i[1]] = mk(None, v[1] + i[3], v[2] + i[3], v[3])
+        return s
+    if op == "GConst":
+        s.ar[i[1]] = mk(None, i[2], i[2], 0)
+        return s
+    if op == "GXchg":
+        a, b = s.ar[i[1]], s.ar[i[2]]
+        s.ar[i[1]] = b
+        s.ar[i[2]] = a
         return s
     if op == "GLoad":
         v = s.ar[i[2]]
-        if v == "T":
+        if v == "T" or (v != "ST" and v[0] == "N"):
             s.ar[i[1]] = "T"
         elif v == "ST":
             s.ar[i[1]] = "ST"
+        elif v[0] == "R":
+            s.ar[i[1]] = "ST" if stackish_base(v[1]) else "T"
         elif stackish_base(v[1]):
             s.ar[i[1]] = load_val(s, v[1], v[2] + i[3])
         else:
@@ -148,13 +252,15 @@ def g_tf(i, s, claims):
     if op == "GAlign":
         d, aid = i[1], i[2]
         v = s.ar[d]
-        u = None if v in ("T", "ST") else upper(s, v[1], v[2])
-        ment = lambda x: x not in ("T", "ST") and x[1] == ("A", aid)
+        u = upper(s, v[1], v[2]) if v not in ("T", "ST") and v[0] == "S" else None
+        ment = lambda x: x not in ("T", "ST") and x[0] in ("S", "R") and x[1] == ("A", aid)
         s.ar = ["ST" if ment(x) else x for x in s.ar]
         s.sl = {(b, k): x for (b, k), x in s.sl.items() if b != ("A", aid) and not ment(x)}
         s.bd = {a: c for a, c in s.bd.items() if a != aid}
         if v in ("T", "ST"):
             s.ar[d] = v
+        elif v[0] == "N":
+            s.ar[d] = "T"
         elif not stackish_base(v[1]):
             s.ar[d] = "T"
         elif u is None:
@@ -166,11 +272,17 @@ def g_tf(i, s, claims):
     if op == "GStore":
         b, k, sz, src = i[1], i[2], i[3], i[4]
         v = s.ar[b]
-        if v == "T":
+        if v == "T" or (v != "ST" and v[0] == "N"):
             return s
         if v == "ST":
             return s if OPTIMISTIC[0] else None
         if not stackish_base(v[1]):
+            return s
+        if v[0] == "R":
+            lo, hi = v[2], v[3]
+            if not (sz > 0 and lo <= hi and below_frame(s, v[1], lo + k, hi - lo + sz)):
+                return None
+            s.sl = kill_overlap(s, v[1], lo + k, hi - lo + sz)
             return s
         if not (sz > 0 and below_frame(s, v[1], v[2] + k, sz)):
             return None
@@ -181,6 +293,22 @@ def g_tf(i, s, claims):
         else:
             s.sl = kill_overlap(s, v[1], v[2] + k, sz)
         return s
+    if op == "GStoreIdx":
+        b, ix, sc, k, sz = i[1], i[2], i[3], i[4], i[5]
+        vb, vi = s.ar[b], s.ar[ix]
+        rb = rng(vb)
+        if rb is not None and rb[0] is not None and vi not in ("T", "ST") and vi[0] == "N":
+            if not stackish_base(rb[0]):
+                return s
+            blo, bhi, ilo, ihi = rb[1], rb[2], vi[1], vi[2]
+            lo, hsz = blo + ilo * sc + k, bhi - blo + (ihi - ilo) * sc + sz
+            if not (sz > 0 and sc >= 0 and blo <= bhi and ilo <= ihi and below_frame(s, rb[0], lo, hsz)):
+                return None
+            s.sl = kill_overlap(s, rb[0], lo, hsz)
+            return s
+        if stackish(vb) or stackish(vi):
+            return s if OPTIMISTIC[0] else None
+        return s
     if op == "GStoreNS":
         return None if any_stackish(s, i[1]) and not OPTIMISTIC[0] else s
     if op == "GClob":
@@ -189,7 +317,7 @@ def g_tf(i, s, claims):
         return s
     if op == "GCall":
         v = s.ar[RSP]
-        if v in ("T", "ST") or not stackish_base(v[1]) or not below_frame(s, v[1], v[2] - 8, 8):
+        if v in ("T", "ST") or v[0] != "S" or not stackish_base(v[1]) or not below_frame(s, v[1], v[2] - 8, 8):
             return None
         if any(r != RSP and stackish(s.ar[r]) for r in range(16)):
             return None
@@ -229,10 +357,15 @@ def g_leq(a, b):
     return (not b.df) or a.df
 
 
-def g_join(a, b):
-    sl = {key: aval_join(v, b.sl[key]) for key, v in a.sl.items() if key in b.sl}
+def g_join(a, b, j=None):
+    j = j or aval_join
+    sl = {key: j(v, b.sl[key]) for key, v in a.sl.items() if key in b.sl}
     bd = {aid: max(c, b.bd[aid]) for aid, c in a.bd.items() if aid in b.bd}
-    return G([aval_join(a.ar[r], b.ar[r]) for r in range(16)], sl, bd, a.df and b.df)
+    return G([j(a.ar[r], b.ar[r]) for r in range(16)], sl, bd, a.df and b.df)
+
+
+def g_wjoin(a, b):
+    return g_join(a, b, aval_wjoin)
 
 
 def restored_mask(s):
@@ -261,7 +394,11 @@ def show(v):
         return "unknown"
     if v == "ST":
         return "unknown(stack-derived)"
+    if v[0] == "N":
+        return "number in [%d,%d] step %d" % (v[1], v[2], v[3])
     b = ("entry_%s" % GPR[v[1][1]]) if v[1][0] == "I" else "aligned_%x" % v[1][1]
+    if v[0] == "R":
+        return b + "+[%d..%d step %d]" % (v[2], v[3], v[4])
     return b + ("%+d" % v[2] if v[2] else "")
 
 # ------------------------------------------------------------------ port of the vector machine
@@ -304,12 +441,22 @@ def v_join(a, b):
 # ------------------------------------------------------------------ generic solver (for claim inference)
 
 def succs(t):
-    return [t[1]] if t[0] == "TJmp" else ([t[1], t[2]] if t[0] == "TJcc" else [])
+    """[(edge tag, block)]: True = taken / only successor, False = fall-through"""
+    if t[0] == "TJmp":
+        return [(True, t[1])]
+    if t[0] == "TJcc":
+        return [(True, t[1]), (False, t[2])]
+    if t[0] == "TJcmp":
+        return [(True, t[6]), (False, t[7])]
+    return []
 
 
 def solve(f, which, claims):
     """Kildall; -> ({block index: out-state at the end of the block}, failure or None)"""
     tf, join, leq, init = ((g_tf, g_join, g_leq, g_init()) if which == "g" else (v_tf, v_join, v_leq, [0] * 32))
+    widen = g_wjoin if which == "g" else v_join
+    refine = g_refine if which == "g" else (lambda t, e, s: s)
+    cnt = {}
     inv = {0: init}
     wl = [0]
     outs = {}
@@ -329,12 +476,15 @@ def solve(f, which, claims):
         outs[b] = s
         if blk["term"][0] == "TBad":
             return outs, ("term", b, None)
-        for t in succs(blk["term"]):
+        for e, t in succs(blk["term"]):
+            o = refine(blk["term"], e, s)
             if t not in inv:
-                inv[t] = s
+                inv[t] = o
                 wl.insert(0, t)
-            elif not leq(s, inv[t]):
-                inv[t] = join(inv[t], s)
+            elif not leq(o, inv[t]):
+                c = cnt.get(t, 0)
+                inv[t] = join(inv[t], o) if c < WIDEN_AFTER else widen(inv[t], o)
+                cnt[t] = c + 1
                 wl.insert(0, t)
     return outs, None
 
@@ -405,9 +555,9 @@ def witness(f, which, claims, claim, budget=200000):
         if bad:
             return {"blocks": ["%x" % f.blocks[x]["addr"] for x in path2], "path_idx": list(path2), "exit": t[0], "problem": bad,
                     "exit_block": "%x" % blk["addr"]}
-        for nx in reversed(succs(t)):
+        for e, nx in reversed(succs(t)):
             if path2.count(nx) < 2:
-                stack.append((nx, s, path2))
+                stack.append((nx, (g_refine(t, e, s) if which == "g" else s), path2))
     return None
 
 # ------------------------------------------------------------------ library model, classification, claims
@@ -528,6 +678,12 @@ def emit_g(i, fid):
         return "GStore %d (%d) %d %s" % (i[1], i[2], i[3], "None" if i[4] is None else "(Some %d)" % i[4])
     if op == "GStoreNS":
         return "GStoreNS %d" % i[1]
+    if op == "GStoreIdx":
+        return "GStoreIdx %d %d %d (%d) %d" % (i[1], i[2], i[3], i[4], i[5])
+    if op == "GConst":
+        return "GConst %d %d" % (i[1], i[2])
+    if op == "GXchg":
+        return "GXchg %d %d" % (i[1], i[2])
     if op == "GClob":
         return "GClob %d %d" % (i[1], i[2])
     if op == "GCall":
@@ -554,6 +710,9 @@ def emit_term(t, fid):
         return "(TJmp %d)" % (t[1] + 1)
     if t[0] == "TJcc":
         return "(TJcc %d %d)" % (t[1] + 1, t[2] + 1)
+    if t[0] == "TJcmp":
+        return "(TJcmp %s %s %s %d (%d) %d %d)" % ("true" if t[1] else "false", "true" if t[2] else "false", t[3], t[4], t[5],
+                                                    t[6] + 1, t[7] + 1)
     if t[0] == "TTail":
         return "(TTail %d)" % fid.get(t[1], 0xFFFFFF)
     return t[0]
@@ -684,7 +843,7 @@ def classify_g(lib, k):
         op = insn[0]
         if op == "GCtl":
             return "violation", {"problem": "writes MXCSR / x87 control word", "exit_block": "%x" % f.blocks[fail[1]]["addr"]}
-        if op == "GStore" and st.ar[insn[1]] not in ("T", "ST") and stackish_base(st.ar[insn[1]][1]):
+        if op == "GStore" and st.ar[insn[1]] not in ("T", "ST") and st.ar[insn[1]][0] == "S" and stackish_base(st.ar[insn[1]][1]):
             v = st.ar[insn[1]]
             u = upper(st, v[1], v[2] + insn[2])
             if u is not None and u + insn[3] > 0:
@@ -692,6 +851,7 @@ def classify_g(lib, k):
                                      "exit_block": "%x" % f.blocks[fail[1]]["addr"]}
         why = {"GStore": "store through a computed stack address (%s = %s)" % (GPR[insn[1]] if op == "GStore" else "", show(st.ar[insn[1]]) if op == "GStore" else ""),
                "GStoreNS": "indexed store whose address registers include a stack-derived value",
+               "GStoreIdx": "indexed store into the frame whose range is not provably below the saved-register area",
                "GUnknown": "instruction outside the translator's tables",
                "GCall": "call with a stack-derived value in a register, or rsp not tracked",
                }.get(op, "%s not admissible (stack pointer not tracked)" % op)
@@ -701,28 +861,70 @@ def classify_g(lib, k):
     w = witness(f, "g", lib.claims, want)
     if w is None:
         return "domain", "the join over paths loses a saved register (no single violating path within the search bound)"
-    # a register that is merely UNKNOWN at the exit of this single path is a definite breach only if the last
-    # thing written to it on the path was a computation / call result; if it was reloaded from a stack slot
-    # whose content the domain lost, the function is outside the domain
+    # a register that is merely UNKNOWN at the exit of this single path is a definite breach unless the last thing
+    # written to it on the path was a reload from a stack cell that the path DID write earlier and whose content
+    # the domain lost (imprecise store, call); a reload from a cell the path never wrote, a load through a
+    # non-stack pointer, a computation or a call result are definite
     lw = last_writers(f, w["path_idx"], lib.claims)
 
     def soft(p):
         reg = p.split(" = ")[0]
-        return "unknown" in p and reg in GPR and lw.get(GPR.index(reg)) in ("GLoad", "GPop")
+        return "unknown" in p and reg in GPR and lw.get(GPR.index(reg)) == "reload-of-lost-slot"
     probs = w["problem"].split("; ")
     if all(soft(p) for p in probs):
         return "domain", "on path %s: %s (reloaded from a slot whose content the domain lost)" % ("->".join(w["blocks"][-4:]), w["problem"])
+    never = [GPR[r] for r, how in lw.items() if how == "reload-of-unwritten-slot"]
+    if never:
+        w = dict(w, problem=w["problem"] + " (%s reloaded from a stack slot this path never wrote)" % ",".join(never))
     return "violation", w
 
 
 def last_writers(f, path_blocks, claims):
-    """replay a block path and remember which abstract instruction wrote each GPR last"""
+    """replay a block path (abstract states, no joins) and remember for each GPR how it was written last:
+    an instruction name, or for 64-bit loads 'load-nonstack' / 'reload-of-lost-slot' / 'reload-of-unwritten-slot'"""
     lw = {}
-    for b in path_blocks:
+    s = g_init()
+    written = []            # (base, lo, hi) byte ranges of the frame stored to on this path
+
+    def hull_of(i, st):
+        op = i[0]
+        if op in ("GPush", "GPushX"):
+            v = st.ar[RSP]
+            return (v[1], v[2] - 8, v[2]) if v not in ("T", "ST") and v[0] == "S" else None
+        if op == "GStore":
+            r = rng(st.ar[i[1]])
+            return (r[0], r[1] + i[2], r[2] + i[2] + i[3]) if r and r[0] is not None else None
+        if op == "GStoreIdx":
+            r, vi = rng(st.ar[i[1]]), st.ar[i[2]]
+            if r and r[0] is not None and vi not in ("T", "ST") and vi[0] == "N":
+                return (r[0], r[1] + vi[1] * i[3] + i[4], r[2] + vi[2] * i[3] + i[4] + i[5])
+        return None
+
+    def load_kind(base, k):
+        if base in ("T",) or (base not in ("T", "ST") and (base[0] == "N" or not stackish_base(base[1]))):
+            return "load-nonstack"
+        if base == "ST" or base[0] != "S":
+            return "reload-of-lost-slot"
+        b, a = base[1], base[2] + k
+        if b == ("I", RSP) and a >= 0:
+            return "load-nonstack"          # return address / caller's area
+        hit = any(wb == b and lo < a + 8 and a < hi for wb, lo, hi in written)
+        return "reload-of-lost-slot" if hit else "reload-of-unwritten-slot"
+
+    for n, b in enumerate(path_blocks):
         for i in f.blocks[b]["g"]:
             op = i[0]
-            if op in ("GMov", "GLea", "GLoad", "GAlign", "GPop"):
+            h = hull_of(i, s)
+            if h:
+                written.append(h)
+            if op == "GLoad":
+                lw[i[1]] = load_kind(s.ar[i[2]], i[3])
+            elif op == "GPop":
+                lw[i[1]] = load_kind(s.ar[RSP], 0)
+            elif op in ("GMov", "GLea", "GAlign", "GConst"):
                 lw[i[1]] = op
+            elif op == "GXchg":
+                lw[i[1]] = lw[i[2]] = op
             elif op == "GClob":
                 for r in range(16):
                     if (i[1] >> r) & 1:
@@ -732,6 +934,16 @@ def last_writers(f, path_blocks, claims):
                 for r in range(16):
                     if not (pres >> r) & 1:
                         lw[r] = op
+            s2 = g_tf(i, s, claims)
+            if s2 is None:
+                return lw
+            s = s2
+        if n + 1 < len(path_blocks):
+            t = f.blocks[b]["term"]
+            for e, nx in succs(t):
+                if nx == path_blocks[n + 1]:
+                    s = g_refine(t, e, s)
+                    break
     return lw
 
 
